@@ -365,7 +365,7 @@ func (ef *errflow) regionProblems(f *ssa.Function, S *ssa.BasicBlock, C map[ssa.
 					idioms["I5"] = true
 					return
 				}
-				if calleeName(ci.Common()) == "database/sql.(*Tx).Rollback" {
+				if calleeName(ci.Common()) == "database/sql.Tx.Rollback" {
 					rolledBack = true
 				}
 			}
@@ -482,9 +482,9 @@ func (ef *errflow) retryOK(f *ssa.Function, rejoin *ssa.BasicBlock, rolledBack b
 	allInstrs(f, func(ins ssa.Instruction) {
 		if ci, ok := ins.(ssa.CallInstruction); ok {
 			switch calleeName(ci.Common()) {
-			case "database/sql.(*DB).BeginTx", "database/sql.(*DB).Begin":
+			case "database/sql.DB.BeginTx", "database/sql.DB.Begin":
 				begin[ins.Block()] = true
-			case "database/sql.(*Tx).Commit":
+			case "database/sql.Tx.Commit":
 				commits = append(commits, ins)
 			}
 		}
@@ -505,7 +505,7 @@ func (ef *errflow) retryOK(f *ssa.Function, rejoin *ssa.BasicBlock, rolledBack b
 // analyse classifies one call site.
 func (ef *errflow) analyse(f *ssa.Function, ci ssa.CallInstruction, site *ErrSite) {
 	name := calleeName(ci.Common())
-	if name == "database/sql.(*Rows).Close" || name == "database/sql.(*Stmt).Close" {
+	if name == "database/sql.Rows.Close" || name == "database/sql.Stmt.Close" {
 		site.Idiom = "I7"
 		return
 	}
@@ -730,7 +730,7 @@ func (ef *errflow) rowsIteration(f *ssa.Function, r *Report, rule string) {
 	ordn := newOrdinals()
 	allInstrs(f, func(ins ssa.Instruction) {
 		ci, ok := ins.(ssa.CallInstruction)
-		if !ok || calleeName(ci.Common()) != "database/sql.(*Rows).Next" {
+		if !ok || calleeName(ci.Common()) != "database/sql.Rows.Next" {
 			return
 		}
 		rows := ci.Common().Args[0]
@@ -738,7 +738,7 @@ func (ef *errflow) rowsIteration(f *ssa.Function, r *Report, rule string) {
 		cons := fmt.Sprintf("%s rows.Next %s", fname(f), ord(n))
 		var errCalls []ssa.CallInstruction
 		allInstrs(f, func(j ssa.Instruction) {
-			if cj, ok := j.(ssa.CallInstruction); ok && calleeName(cj.Common()) == "database/sql.(*Rows).Err" && cj.Common().Args[0] == rows {
+			if cj, ok := j.(ssa.CallInstruction); ok && calleeName(cj.Common()) == "database/sql.Rows.Err" && cj.Common().Args[0] == rows {
 				errCalls = append(errCalls, cj)
 			}
 		})
@@ -762,7 +762,7 @@ func (ef *errflow) rowsIteration(f *ssa.Function, r *Report, rule string) {
 // runErrflow evaluates E1 over the given function set.
 // auditedErrSites: error values that are deliberately not consulted on some path, with the reason.
 var auditedErrSites = map[string]string{
-	"node.(*Pegnetd).SyncBlock -> node.(*Pegnetd).GradeS #1": "below V20HeightActivation the SPR grading result is not used at all (ApplyGradedSPRBlock and the SPR rate combination are dead there: C11/C12 era tables), so its error is only consulted from 2.0 on",
+	"node.Pegnetd.SyncBlock -> node.Pegnetd.GradeS #1": "below V20HeightActivation the SPR grading result is not used at all (ApplyGradedSPRBlock and the SPR rate combination are dead there: C11/C12 era tables), so its error is only consulted from 2.0 on",
 }
 
 func runErrflow(c *Ctx, eff *Effects, r *Report, scope map[*ssa.Function]bool, rule string, lintAll bool) []*ErrSite {
